@@ -62,7 +62,7 @@ def handle (toks : List String) : Option String :=
         | .error m => "error:" ++ m
         | .ok s => "ok " ++ solvedStr s
   | "lay.pgraph" :: rest => some <|
-      match parseNetlist rest >>= resolveAll rotCode with
+      match parseNetlist rest >>= (fun n => resolveAll (rotCodeP n.rots) n) with
       | .error e => "error:" ++ e
       | .ok (all, rs) =>
         let g := makeGraphs rs
